@@ -63,6 +63,10 @@ func (f *Frame) execCall(instr ssa.Instruction, c *ssa.CallCommon, st *State) *V
 		return mkRes(f.inline(instr, callee, args, fv.Fn.Bind, st))
 	}
 	name := ShortName(callee)
+	if callee.Name() == "init" && callee.Synthetic != "" && callee.Pkg != nil && f.fn.Pkg != callee.Pkg {
+		u.note("package initialiser of an imported package (" + callee.Pkg.Pkg.Path() + ") already ran and does not touch this package's variables")
+		return nil
+	}
 	if terminators[name] {
 		f.nopanic(st, "fatal", instr.Pos(), tFalse, name+" is not reached")
 		st.reach = tFalse
@@ -493,7 +497,12 @@ func (f *Frame) applyContract(instr ssa.Instruction, ct *Contract, callee *ssa.F
 		st.reach = tFalse
 		return f.freshResults(st, sig, "dead")
 	}
-	// havoc the footprint
+	// havoc the footprint (a callee may always allocate)
+	if !ct.HasMod && !ct.Pure {
+		na := u.fresh("alloc", SInt)
+		u.assume(st, app(SBool, ">=", na, pre.alloc))
+		st.alloc = na
+	}
 	f.havocFootprint(ct, ctx, pre, st)
 	// results
 	var res []*V
@@ -793,6 +802,9 @@ func (f *Frame) havocFootprint(ct *Contract, ctx *SpecCtx, pre, st *State) {
 	}
 	if all {
 		u.havocAll(st)
+		if u.writeLog != nil {
+			*u.writeLog = append(*u.writeLog, writeRec{key: "*"})
+		}
 		return
 	}
 	var keys []string
@@ -811,6 +823,17 @@ func (f *Frame) havocFootprint(ct *Contract, ctx *SpecCtx, pre, st *State) {
 				whole = true
 			}
 			bases = append(bases, it.bases...)
+		}
+		if u.writeLog != nil {
+			if whole {
+				*u.writeLog = append(*u.writeLog, writeRec{key: k, sort: srt, whole: true})
+			}
+			for _, b := range bases {
+				*u.writeLog = append(*u.writeLog, writeRec{key: k, base: b, sort: srt})
+			}
+			if !whole && len(bases) == 0 {
+				*u.writeLog = append(*u.writeLog, writeRec{key: k, sort: srt, whole: true})
+			}
 		}
 		if whole {
 			continue
